@@ -178,6 +178,10 @@ class FunctionLogger:
                 must be a finite, positive real-valued scalar (returned SD:{}"""
             raise ValueError(error_message.format(str(fsd)))
 
+        # Work with a Python float from here on (unsigned or narrow NumPy integer
+        # types would wrap around / overflow in later differences of values)
+        fval_orig = float(fval_orig)
+
         # record timer stats
         funtime = timer.get_duration("funtime")
 
